@@ -22,14 +22,14 @@ RULE = ("seeded random pipelines: depth 0-4 drawn from a catalog of %d operator 
 ASSUMPTIONS = ["TestScheduler / HistoricalScheduler are the clock (ordering checked by C28)",
                "probe sources and probe observers are harness code; non-conforming sources misbehave on purpose",
                "the run is cut at virtual time 600 (never-ending pipelines with periodic timers)"]
-CASES = {"quick": 1920, "thorough": 160000}
+CASES = {"quick": 3200, "thorough": 800000}
 REQUIRED = {"set:ops": len(CATALOG) - 6,
-            "late_emissions": {"quick": 300, "thorough": 20000},
-            "faults_fired": {"quick": 300, "thorough": 20000},
-            "probes_checked": {"quick": 1900, "thorough": 160000},
-            "window_probes": {"quick": 100, "thorough": 8000},
-            "reentrant_kicks": {"quick": 100, "thorough": 8000},
-            "terminated_probes": {"quick": 800, "thorough": 60000}}
+            "late_emissions": {"quick": 300, "thorough": 100000},
+            "faults_fired": {"quick": 300, "thorough": 100000},
+            "probes_checked": {"quick": 1900, "thorough": 800000},
+            "window_probes": {"quick": 100, "thorough": 40000},
+            "reentrant_kicks": {"quick": 100, "thorough": 40000},
+            "terminated_probes": {"quick": 800, "thorough": 300000}}
 
 
 def units(tier: str, seed: int) -> list[dict]:
